@@ -1,0 +1,20 @@
+//! Verification hooks (cargo feature `verif`, off by default): re-exports of crate-private items and
+//! read-only accessors used by the contract harnesses under /verif. Nothing here changes behaviour.
+pub use crate::align_utils::*;
+pub use crate::collections::*;
+pub use crate::reference::*;
+
+/// A read-only snapshot of the allocator's bookkeeping
+#[derive(Debug, Clone, Copy, PartialEq, Eq)]
+pub struct AllocatorStats {
+  pub bytes_allocated: usize,
+  pub next_gc: usize,
+  pub gc_count: u128,
+  pub heap_len: usize,
+  pub nursery_obj_len: usize,
+  pub obj_len: usize,
+  pub intern_len: usize,
+  pub temp_roots: usize,
+  /// sum of `size()` over every handle currently owned by the allocator
+  pub owned_bytes: usize,
+}
